@@ -1233,7 +1233,13 @@ def selftest():
         "keybulk": ("keytree", "scale", {"rounds": "D", "deep": 300, "seed": 3}),
         "ordsweep": ("maptree-i32", "scale", {"plan": "", "sweep_lo": 9, "sweep_hi": 12, "seed": 3}),
         "segdense": ("seg-i32", "dense", {"lo": -7, "hi": 40, "seed": 3, "inject": 0, "bulk": 60}),
+        "cnt": ("settree-cnt", "random", {"seed": 16, "keys": 8, "steps": 300, "seglen": 60}),
+        "ind": ("maptree-i32", "ind", {"states": os.path.join(wd, "ind-states.txt"), "handles": 1}),
     }
+    # two start states in the syntax TLC prints them in (a three-node tree with a full arena, one with free slots)
+    with open(os.path.join(wd, "ind-states.txt"), "w") as f:
+        f.write('"snap":{"root":1,"nd":[[0,0,0,1,0,0,0],[-1,2,3,0,4,4001,0],[1,-1,-1,1,2,2001,0],[1,-1,-1,1,6,6001,0]],"free":[],"ucap":8}\n')
+        f.write('"snap":{"root":1,"nd":[[0,0,0,1,0,0,0],[-1,2,-1,0,4,4001,0],[1,-1,-1,1,2,2001,0],[0,0,0,1,0,0,0],[0,0,0,1,0,0,0]],"free":[4,3],"ucap":2}\n')
     base = {}
     for name, (coll, drv, params) in runs.items():
         out = os.path.join(wd, name + ".ndjson")
@@ -1323,6 +1329,13 @@ def selftest():
     K.append(("ord bulk keys shifted", "ordsweep", "RES_GET", lambda e: isbulk(e) and e["lo"] == 1, lambda e: e.update(lo=3, hi=e["hi"] + 2)))
     K.append(("seg bulk run shorter than logged", "segdense", "YIELD", isbulk, lambda e: e.update(n=e["n"] - 1)))
     K.append(("seg bulk expiration", "segdense", "YIELD", isbulk, lambda e: e.update(e=0)))
+
+    K.append(("payload instances left at drop", "cnt", "DROPS", lambda e: e.get("op") == "drop", lambda e: e.update(residue=-1)))
+    K.append(("loaded start state not a red-black tree", "ind", "WF", lambda e: e.get("ev") == "load" and len(stored(e)) >= 3,
+              lambda e: [n.__setitem__(3, 1) for n in e["snap"]["nd"]]))
+    K.append(("loaded start state loses a slot", "ind", "POOL", lambda e: e.get("ev") == "load" and e["snap"]["free"], lambda e: e["snap"]["free"].pop()))
+    K.append(("insert from a loaded state moves a handle's entry", "ind", "STABLE", lambda e: e.get("op") == "ins" and "snap" in e and len(stored(e)) >= 3,
+              lambda e: (lambda nd, a, b: (nd[a].__setitem__(slice(4, 6), nd[b][4:6]), nd[b].__setitem__(slice(4, 6), [k for k in nd[a][4:6]])))(e["snap"]["nd"], stored(e)[0], stored(e)[1])))
 
     def one(k):
         title, tname, tag, sel, mut = k
